@@ -93,9 +93,14 @@ const (
 func classifyCheck(p policy, calls []harness.AuthCall) (cls checkClass, facts []string, haveFacts bool) {
 	token, tokenOK, unavailable, denied := 0, 0, false, false
 	profiles, profilesOK := 0, 0
-	for _, c := range calls {
+	for i, c := range calls {
 		st := 0
 		fmt.Sscanf(c.Answer, "%d", &st)
+		if c.Answer == "reset" && c.Method == "GET" && i+1 < len(calls) && calls[i+1].Endpoint == c.Endpoint {
+			// net/http transparently retries an idempotent request whose (reused) connection died before
+			// any byte of the response arrived; the retried call is the one that was answered
+			continue
+		}
 		switch c.Endpoint {
 		case "validate", "refresh":
 			token++
